@@ -12,6 +12,13 @@ REPORTS = ["solve_energy", "rail_rep", "params", "limits", "phases", "tree", "sa
 _DEEP = {"on": True}
 
 
+def trans_check_werror(sd, hist, op, s0, key0, s, key, idb, exc, memo):
+    """the same comparison for calls made with warnings promoted to errors: a call that raises a Warning is a rejected call like any other"""
+    if exc is None or not isinstance(exc, Warning):
+        return []
+    return [((sg[0] + "/warnings-as-errors",) + tuple(sg[1:]), d) for sg, d in trans_check(sd, hist, op, s0, key0, s, key, idb, exc, memo)]
+
+
 def trans_check(sd, hist, op, s0, key0, s, key, idb, exc, memo):
     if exc is None:
         return []
@@ -66,8 +73,10 @@ def replay(doc):
     s0, g0 = e2.replay(c["seed"], hist[:-1])
     s, g = e2.replay(c["seed"], hist[:-1])
     idb = e2.ids(s)
-    g2, exc = e2.step(s, g, hist[-1])
+    g2, exc = e2.step(s, g, hist[-1], werror=c.get("werror", False))
     v = trans_check(c["seed"], hist[:-1], hist[-1], s0, e2.kfull(s0, g0, extra=False), s, e2.kfull(s, g2, extra=False), idb, exc, {})
+    if c.get("werror"):
+        v = [((sg[0] + "/warnings-as-errors",) + tuple(sg[1:]), d) for sg, d in v]
     for sig, det in v:
         print("  ", sig, det)
     return [tuple(str(x) for x in s_) for s_, _ in v]
@@ -87,6 +96,10 @@ def main(tier):
         st["per_depth_b2_snapshot_only"] = stb["per_depth"]
     else:
         st = e2.explore(run, list(e2.SEEDS), D, B, trans_check=trans_check, phase_ops=True)
+    # warnings promoted to errors: a call that warns is then a rejected call and must be atomic as well
+    stw = e2.explore(run, list(e2.SEEDS), 2 if tier == "quick" else 3, 2, trans_check=trans_check_werror, phase_ops=True, werror=True)
+    st["warnings_as_errors"] = {"states": stw["states"], "transitions": stw["transitions"], "rejected": stw["rejected"],
+                                "warning_rejections": {k[9:]: v for k, v in stw.items() if k.startswith("rejected:") and "Warning" in k}}
     if tier != "quick":
         _DEEP["on"] = False  # beyond depth 3 only the white-box snapshot is compared (reports are a function of it)
         st2 = e2.explore(run, ["single", "mux", "rails"], 4, 1, trans_check=trans_check, phase_ops=True)
